@@ -369,6 +369,9 @@ def method_contract(self, cls, m):
         q = f"{fpath}::{c}.{m}"
         if q in self.registry:
             return q
+        variants = [k for k in self.registry if k.startswith(q + "#")]
+        if len(variants) == 1:
+            return variants[0]        # the only contract of this method is for one kind of argument (e.g. __getitem__ by annotator)
     return None
 
 
@@ -1184,6 +1187,22 @@ def ctor_model(self, e, st, spec):
             return z3.BoolVal(False)
         if is_z3(v) and cname == "str":
             return z3.BoolVal(v.sort() == R)
+        if cname == "int":
+            return z3.BoolVal(is_z3(v) and v.sort() == I)
+        if isinstance(v, SList) and cname in ("str", "int"):
+            return z3.BoolVal(False)
+        return NotImplemented
+    if name == "list" and len(e.args) == 1:
+        v = deopt(self, self.ev(e.args[0], st, spec), st, spec, e)
+        s_ = set_of(self, st, v)
+        if s_ is not None:
+            # list(sorted set): its elements in order (a snapshot by value)
+            st.assume(*wf_set(s_["mem"], s_["n"], s_["seq"], s_["idx"]))
+            tmpl = wrap(z3.Const(V.fresh_name("el"), s_["elem"]))
+            self.used_models.add(TRUSTED_SC)
+            return SList(s_["n"], Lifted(tmpl, [s_["seq"]]))
+        if isinstance(v, SList):
+            return v
         return NotImplemented
     if name == "iter" and len(e.args) == 1:
         v = self.ev(e.args[0], st, spec)
@@ -1460,3 +1479,23 @@ def havoc_heap(self, st, spec):
 
 
 Engine.havoc_heap = havoc_heap
+
+
+def method_generator_iter(self, node, st):
+    """for x in obj.gen(args): a method that is a generator under contract"""
+    if not (isinstance(node, ast.Call) and isinstance(node.func, ast.Attribute)):
+        return NotImplemented
+    try:
+        recv = self.ev(node.func.value, st, False)
+    except EngineError:
+        return NotImplemented
+    recv = deopt(self, recv, st, False, node)
+    if not isinstance(recv, Ref):
+        return NotImplemented
+    q = self.method_contract(_heap(st, recv)["$cls"], node.func.attr)
+    if q is None or not self.registry[q].yields:
+        return NotImplemented
+    return self.generator_iter(q, node, st, argvals=[recv] + [self.ev(a, st, False) for a in node.args])
+
+
+Engine.ITER_MODELS.append(method_generator_iter)
